@@ -265,6 +265,22 @@ P("C18", "a failed operation leaves its target and its arguments unchanged", "fa
   exhaustive={"quick": "scenario table x target length {0,5,15,16,17,40} x argument length {3,20,60} x damage at {start,middle,end}", "thorough": "the same table, 200 random fillings per cell"},
   dbits={"quick": 20, "thorough": 22})
 
+P("C19", "allocation failure propagates cleanly and leaves every object destructible", "oom",
+  level="fault_enumeration",
+  level_text=("fault enumeration by runtime injection: for each of ~100 allocating operations (buffers of the four element types, string construction/assignment/concatenation/slicing/replace/split, all converters, "
+              "codecs, formatting, stream growth and moves, iostream insertion/extraction) x 4 storage-mode combinations of target and argument, the allocations performed inside the call are counted and then each one "
+              "in turn is made to throw by a countdown failpoint in the replaced operator new; under ASan+UBSan the monitors check that std::bad_alloc reaches the caller (or, for iostream operations, the stream reports "
+              "failure), that every fixture is still structurally valid (storage alive, previous value or empty), can be assigned to and destroyed, and that no library allocation survives the teardown"),
+  technique="fault injection at operator new (exhaustive over allocation index per operation) + structural/ownership monitors via the allocation registry under ASan+UBSan",
+  rule=("a case is (operation, storage-mode combination, random filling); for each the failpoint is placed on every allocation index k=1..N of the call, so the fault space of the table is enumerated completely; "
+        "distinct by (operation, mode, filling seed); evaluations count injected faults + counting runs; nothing trivial (operations with N=0 for a given filling are counted separately)"),
+  assumptions=["only operator new/new[] is faulted; malloc inside libc (open_memstream, locale init) is not",
+               "iostream operations may report an allocation failure inside libstdc++ through the stream state instead of an exception (standard library protocol)",
+               "allocations made by the operation body itself (temporary std::strings of the harness inside the call) are faulted too; they propagate bad_alloc trivially"],
+  exhaustive={"quick": "every allocation index of every (operation, storage-mode combination) of the table, 2 random fillings each",
+              "thorough": "every allocation index of every (operation, storage-mode combination) of the table, 24 random fillings each"},
+  dbits={"quick": 20, "thorough": 22})
+
 _PENDING = "check not registered yet in this revision of /verif (harness under construction; nothing is claimed)"
 for _p in ["C%02d" % i for i in range(1, 21)]:
     if _p not in PROPS:
